@@ -47,7 +47,7 @@ class HistGen:
         if k == "nil": return "nil", self.nver[c] == 0
         if k == "anc": return f"anc:{c}:{r.randint(1, 6)}", False
         if k == "base": return f"base:{c}", self.nver[c] == 0
-        if k == "fresh": return "fresh", self.nver[c] == 0
+        if k == "fresh": return (f"odd:{r.randrange(5)}" if r.random() < 0.3 else "fresh"), self.nver[c] == 0
         o = self.other(c)
         return r.choice([f"latest:{o}", f"ver:{o}:{r.randint(0, 9)}", f"base:{o}", f"snap:{o}"]), self.nver[c] == 0
 
@@ -59,7 +59,7 @@ class HistGen:
         if k == "nil": return "nil"
         if k == "ver": return f"ver:{c}:{r.randint(0, 30)}"
         if k == "base": return f"base:{c}"
-        if k == "fresh": return "fresh"
+        if k == "fresh": return f"odd:{r.randrange(5)}" if r.random() < 0.3 else "fresh"
         o = self.other(c)
         return r.choice([f"latest:{o}", f"ver:{o}:{r.randint(0, 9)}", f"base:{o}"])
 
@@ -71,7 +71,7 @@ class HistGen:
         if k == "anc": return f"anc:{c}:{r.randint(1, 7)}"
         if k == "base": return f"base:{c}"
         if k == "nil": return "nil"
-        if k == "fresh": return "fresh"
+        if k == "fresh": return f"odd:{r.randrange(5)}" if r.random() < 0.3 else "fresh"
         if k == "snap": return f"snap:{c}"
         o = self.other(c)
         return r.choice([f"latest:{o}", f"ver:{o}:{r.randint(0, 9)}", f"snap:{o}"])
